@@ -851,7 +851,9 @@ class Model():
 
         # Reconstruct the associations
         for assoc_entry in serialized_object.get('associations', []):
-            assoc = list(assoc_entry.keys())[0]
+            # The association type is the key that is not the optional
+            # metadata; YAML files list the keys in alphabetical order.
+            assoc = [key for key in assoc_entry.keys() if key != 'extras'][0]
             assoc_fields = assoc_entry[assoc]
             association = getattr(model.lang_classes_factory.ns, assoc)()
 
